@@ -243,7 +243,8 @@ def _termination(ck, P, cfg):
             ok = False
     # marking happens on the same paths
     marks = [n for n in f.walk() if n.k == "BinaryOperator" and n.op == "=" and X.show(n.children[0]).endswith("->termination_t")]
-    marked = bool(marks) and f.cfg.dominates(marks[0], dec) and (X.strip(marks[0].children[1]).k == "MemberExpr" and X.strip(marks[0].children[1]).name == "dest_t")
+    mval = Q.resolve_local(f, marks[0].children[1]) if marks else None
+    marked = bool(marks) and f.cfg.dominates(marks[0], dec) and (mval.k == "MemberExpr" and mval.name == "dest_t")
     if ok and marked:
         ck.holds("C10.5", "count", dec.where, "counted down once, only when the marker is negative and the predicate holds; the marker then records the event time (>= 0)", cfg)
     else:
